@@ -171,6 +171,111 @@ func c13Diff(ref, got *c13Out) string {
 	return ""
 }
 
+// c13VersionStream: the stream of a client that does not wait for Rversion - a
+// Tversion (which may switch the connection's dialect and msize) followed by
+// independent attaches already encoded in the dialect asked for - under every
+// segmentation; the byte-at-a-time run is the reference.
+func c13VersionStream(srvDotu bool, ver string, srvMsize, cliMsize uint32) Scenario {
+	name := fmt.Sprintf("version-in-stream server-dotu=%v asks=%s msize=%d/%d", srvDotu, ver, srvMsize, cliMsize)
+	return Scenario{Name: name, Run: func(c *RunCtx) *Result {
+		res := &Result{Exhaustive: true, Bounds: map[string]any{"D": 1}}
+		dotu := srvDotu && ver == "9P2000.u"
+		var stream []byte
+		stream = append(stream, wire.Encode(&wire.Msg{Type: wire.Tversion, Tag: wire.NOTAG, Msize: cliMsize, Version: ver}, false)...)
+		names := []string{"glenda", "bob", "glenda"}
+		ids := []uint32{7, 8, 7}
+		for i := 0; i < 3; i++ {
+			stream = append(stream, wire.Encode(tattach(uint16(10+i), uint32(i), wire.NOFID, names[i], ids[i], dotu), dotu)...)
+		}
+		run := func(cuts []int, chunk int) string {
+			var got string
+			body := func() {
+				fs := NewFS()
+				h := NewSrvH(fs, SrvOpt{Msize: srvMsize, Dotu: srvDotu})
+				cl := h.Connect()
+				cl.Dotu = dotu
+				ci := 0
+				cl.SrvEnd.Seg = func(avail, want int) int {
+					off := cl.SrvEnd.ReadOffset()
+					if chunk > 0 {
+						return chunk - off%chunk
+					}
+					for ci < len(cuts) && cuts[ci] <= off {
+						ci++
+					}
+					if ci < len(cuts) {
+						return cuts[ci] - off
+					}
+					return avail
+				}
+				cl.SendRaw(stream)
+				vs.Idle()
+				byTag := map[uint16]string{}
+				var tags []int
+				for _, f := range cl.Collect() {
+					if f.Msg == nil {
+						byTag[0xfffe] += "unparseable:" + f.Err + ";"
+						continue
+					}
+					if _, ok := byTag[f.Msg.Tag]; !ok {
+						tags = append(tags, int(f.Msg.Tag))
+					}
+					byTag[f.Msg.Tag] += fmt.Sprintf("%x;", f.Raw)
+				}
+				sort.Ints(tags)
+				for _, t := range tags {
+					got += fmt.Sprintf("%d=%s ", t, byTag[uint16(t)])
+				}
+				got += fmt.Sprintf("closed=%v calls=", cl.End.PeerClosed())
+				var calls []string
+				for _, e := range fs.Log {
+					if e.Kind == "call" {
+						calls = append(calls, fmt.Sprintf("%s/%d/%s/%s", e.Op, e.Tag, e.User, e.Args))
+					}
+				}
+				sort.Strings(calls)
+				got += strings.Join(calls, ",")
+			}
+			x := vs.Run(nil, body, vs.Options{})
+			if len(x.Panics) > 0 {
+				return "panic: " + x.Panics[0].Value
+			}
+			return got
+		}
+		ref := run(nil, 1)
+		res.Evals++
+		if !strings.Contains(ref, "closed=false") || strings.Count(ref, "Attach/") != 3 {
+			res.Findings = append(res.Findings, Finding{Sig: "C13/version-stream/byte-at-a-time-run-failed", Msg: name + ": " + ref})
+			return res
+		}
+		seen := map[string]bool{}
+		try := func(cuts []int, chunk int, what string) {
+			got := run(cuts, chunk)
+			res.Evals++
+			res.Nontrivial++
+			res.States++
+			res.Traces++
+			res.Transitions += int64(len(cuts) + 1)
+			if got != ref {
+				sig := "C13/version-stream/differs-from-byte-at-a-time"
+				if !seen[sig] {
+					seen[sig] = true
+					res.Findings = append(res.Findings, Finding{Sig: sig, Msg: fmt.Sprintf("%s, %s:\n  got  %s\n  want %s", name, what, got, ref)})
+				}
+			}
+		}
+		try(nil, 0, "the whole stream in one read")
+		for k := 1; k < len(stream); k++ {
+			try([]int{k}, 0, fmt.Sprintf("split at %d", k))
+		}
+		for _, ch := range []int{2, 3, 5, 7, 19, 20, 21, 40} {
+			try(nil, ch, fmt.Sprintf("chunks of %d", ch))
+		}
+		res.Samples = append(res.Samples, fmt.Sprintf("stream of %d bytes: Tversion + 3 independent Tattach; one read, every single split, 8 chunk sizes, against byte-at-a-time", len(stream)))
+		return res
+	}}
+}
+
 func c13ServerScenario(ss c13Session, mode string, lo, hi int) Scenario {
 	name := fmt.Sprintf("server msize=%d dotu=%v nreq=%d gated=%d %s[%d:%d]", ss.msize, ss.dotu, ss.nreq, ss.gateEvery, mode, lo, hi)
 	return Scenario{Name: name, Run: func(c *RunCtx) *Result {
@@ -317,6 +422,11 @@ func c13Scenarios(tier string) []Scenario {
 			}
 		}
 	}
+	for _, sd := range []bool{false, true} {
+		for _, ver := range []string{"9P2000", "9P2000.u"} {
+			out = append(out, c13VersionStream(sd, ver, 8216, 256), c13VersionStream(sd, ver, 128, 8216))
+		}
+	}
 	out = append(out, c13ClientScenarios(tier)...)
 	return out
 }
@@ -324,7 +434,7 @@ func c13Scenarios(tier string) []Scenario {
 func init() {
 	register(&Property{ID: "C13", Level: "model_checking",
 		Technique: "exhaustive enumeration of environment deviations (read segmentations) of the real receive loops under the controlled scheduler, differential against the unsegmented run",
-		Rule:      "server: a fixed stream of independent requests (tiny and msize-sized Twrites, reads, stats, walks; some writes parked while later bytes arrive) at msize 64/96 (thorough also 256/4096) so that the 8*msize receive buffer is exhausted and reallocated; every single split point (D=1), pairs of split points around every buffer-size multiple and the first frame boundaries (D=2), 16 fixed chunk sizes incl. 1 byte; every alignment of the frame boundaries against the receive buffer end (leading payload 0..msize-24) under bulk deliveries compared with the byte-at-a-time run; client: a fixed reply stream to a real Clnt under every single split and chunk sizes. states = segmentations explored; each is one execution of the real code",
+		Rule:      "server: a fixed stream of independent requests (tiny and msize-sized Twrites, reads, stats, walks; some writes parked while later bytes arrive) at msize 64/96 (thorough also 256/4096) so that the 8*msize receive buffer is exhausted and reallocated; every single split point (D=1), pairs of split points around every buffer-size multiple and the first frame boundaries (D=2), 16 fixed chunk sizes incl. 1 byte; every alignment of the frame boundaries against the receive buffer end (leading payload 0..msize-24) under bulk deliveries compared with the byte-at-a-time run; a Tversion (switching dialect and msize) followed by three attaches already in the dialect asked for, one read / every split / 8 chunk sizes against byte-at-a-time; client: a fixed reply stream to a real Clnt under every single split and chunk sizes. states = segmentations explored; each is one execution of the real code",
 		Assumptions: []string{"requests in the explored stream are mutually independent (distinct tags and fids), so per-tag comparison is not perturbed by legitimate reordering", "default schedule for each segmentation (schedule exploration of the receive path belongs to C03/C09)"},
 		Scenarios:   c13Scenarios, QuickS: 100, ThoroughS: 1200})
 }
